@@ -816,6 +816,12 @@ class Sim:
                 sys.settrace(self._global_trace)
             try:
                 sol = solver.solve()
+                if scn.get("solve_twice") and sol is not None:
+                    # solver life cycle: the same TDGLSolver object is run again
+                    h.probe("second_solve")
+                    h.first_solution = sol
+                    h.ev("second-solve")
+                    sol = solver.solve()
                 h.solution = sol
                 h.outcome = "solution" if sol is not None else "none"
             except Discard:
